@@ -1,7 +1,7 @@
 PROP = dict(
     id='C12', level='exploration',
     pyvc=[],
-    finite=[],
+    finite=['finite.regex:sql_tokens', 'finite.lalr:sql_conflict_free'],
     bounded='bounded.c12',
     bounded_budget=dict(quick=45, thorough=420),
     assumptions=[],
